@@ -194,6 +194,21 @@ def judge_idlist(case):
                   ('alias-fn-dotted', lambda: scoping.ns_ids_t('.'.join(ids)))]
         if not ids:
             makers += [('none', lambda: namespaceids_t(None)), ('empty-tree', lambda: NamespaceTree().fqn)]
+        # REPRESENTATION: identifiers that are instances of a str subclass with its own __str__ (Enum-like members)
+        from ..build import StrSub  # pylint: disable=import-outside-toplevel
+        for label, make in (('list-of-str-subclass', lambda: namespaceids_t([StrSub(i) for i in ids])),
+                            ('NamespaceIds-of-str-subclass', lambda: NamespaceIds([StrSub(i) for i in ids])),
+                            ('tuple-free-generator', lambda: NamespaceIds(list(StrSub(i) for i in ids)))):
+            try:
+                val = make()
+            except Exception as exc:  # pylint: disable=broad-except
+                bad(f'str-subclass-identifiers-rejected:{type(exc).__name__}', f'{label}: {exc!r}')
+                continue
+            if list(val.items) != ids or not all(valid_id(str.__str__(x)) for x in val.items) or \
+                    any(type(x) is str and x != y for x, y in zip(val.items, ids)) or str(val) != '.'.join(ids):
+                bad('str-subclass-identifiers-changed', f'{label}: items={[str.__str__(x) for x in val.items]} str={str(val)!r}')
+            if ids and (val + NamespaceIds(['q'])).items != ids + ['q']:
+                bad('str-subclass-identifiers-changed', f'{label}: + gives {(val + NamespaceIds(["q"])).items}')
         for label, make in makers:
             try:
                 first = make()
